@@ -434,6 +434,28 @@ def rule_CP7(rep, prog, g):
         rep.unknown(rid, "fewer than 2 retried compare-exchanges on the group state found (%d)" % n)
 
 
+def rule_OD9(rep, prog, g):
+    rid = rep.rule("C07-OD9", "a notification is attributed to a generation: every path through _dispatch_group_notify looks at the group's state word (dg_state / dg_bits / "
+                   "dg_gen), before or after publishing the notification - finding the list non-empty does not say whether it holds the CURRENT generation's notifications "
+                   "(HAS_NOTIFS still set, fired at the next zero) or those of a generation whose last leave is between its zero transition and the detachment "
+                   "of the list (they are about to be fired)", floor=1)
+    fn = prog.fn("_dispatch_group_notify")
+    rep.saw(fn)
+    push = [i for i in fn.all_insts() if i.op == "atomicrmw" and i.d.get("rmw") == "xchg" and "dg_notify_tail" in prog.fields(i)]
+    if not push:
+        rep.unknown(rid, "_dispatch_group_notify: publication of the notification (exchange of dg_notify_tail) not found")
+        return
+    looks = [i for i in fn.all_insts() if i.op in ("load", "cmpxchg", "atomicrmw") and prog.fields(i) & {"dg_state", "dg_bits", "dg_gen"}]
+    rets = [i for i in fn.all_insts() if i.op == "ret"]
+    first = next(iter(fn.all_insts()))
+    blind = [r for r in rets if first not in looks and fn.inst_reaches(first, r, avoid_insts=looks)]
+    rep.require(rid, not blind, push[0].loc, fn.name, "notify-joins-list-without-observing-state",
+                "_dispatch_group_notify returns on the list-was-not-empty path without ever reading the group's state: a notification registered (after a new "
+                "dispatch_group_enter) while the last leave of the previous generation is between its zero transition and _dispatch_group_wake's detachment of the "
+                "list is linked behind that generation's notifications and fired with them - before the work entered before the notify call has left",
+                sample={"push": push[0].loc, "state_accesses": [i.loc for i in looks]})
+
+
 def run(rep, tier="quick", srcdir=None, only=None):
     prog, units = load(UNITS, tier, srcdir)
     rep.units = units
@@ -459,6 +481,8 @@ def run(rep, tier="quick", srcdir=None, only=None):
     if want("C07-FK"):
         from .sync_common import rule_futex_key
         rule_futex_key(rep, "C07", prog)
+    if want("C07-OD9"):
+        rule_OD9(rep, prog, g)
     if want("C05-MP4"):
         # notifications fire for the generation that completed: the wake works on a detached snapshot of the list (shared with C05)
         from . import C05
